@@ -6,9 +6,9 @@
 #   stmt := ('expr', E) | ('empty',) | ('var', is_var, E|None) | ('fn', name, [stmt]) | ('arrow', [stmt])
 #         | ('ret', E|None) | ('throw', E) | ('brk', label|None) | ('cont', label|None) | ('block', [stmt])
 #         | ('if', C, stmt) | ('ifelse', C, stmt, stmt) | ('while', C, stmt) | ('dowhile', stmt, C)
-#         | ('for', C|None, stmt) | ('forin', stmt) | ('forof', stmt) | ('switch', [(is_default, ft_comment, [stmt])])
+#         | ('for', C|None, stmt) | ('forin', stmt) | ('forof', stmt) | ('switch', [(test, ft_comment, [stmt])])   test := E | None (= default)
 #         | ('label', l, stmt) | ('try', [stmt], [stmt]|None, [stmt]|None)
-#   E := ('id', n) | ('call', n) | ('lit',)          C := ('T',) | ('F',) | ('O', E)
+#   E := ('id', n) | ('call', n) | ('lit',) | ('this',)          C := ('T',) | ('F',) | ('O', E)
 #   program := (wrapper, [stmt])   wrapper in 'fn' | 'getter' | 'switch'
 # The printer produces the JS source, and - in the same pass - the token line for the extracted Coq model
 # (see ocaml/cf/driver.ml for the format), with the byte offsets swc gives to each node.
@@ -55,6 +55,8 @@ class Printer:
             self.t(0, e[1]); self.w("v%d" % e[1])
         elif e[0] == 'call':
             self.t(1, e[1]); self.w("v%d()" % e[1])
+        elif e[0] == 'this':
+            self.t(3); self.w("this")
         else:
             self.t(2); self.w(self.pick(LIT_SP))
 
@@ -168,9 +170,20 @@ class Printer:
 
     def cases(self, cs):
         self.t(len(cs))
-        for idx, (d, ft, body) in enumerate(cs):
-            self.t(self.n, 1 if d else 0, 1 if ft else 0)
-            self.w("default:" if d else "case %d:" % idx)
+        for idx, (test, ft, body) in enumerate(cs):
+            self.t(self.n)
+            if test is None:
+                self.t(0); self.w("default:")
+            else:
+                self.w("case ")
+                self.t(1)
+                if test[0] == 'lit':
+                    # distinct literal tests: a number or a string
+                    self.t(2); self.w(self.pick(["%d" % idx, "%d" % idx, '"s%d"' % idx, "%d.5" % idx]))
+                else:
+                    self.expr(test)
+                self.w(":")
+            self.t(1 if ft else 0)
             self.w(" ")
             self.t(len(body))
             for j, s in enumerate(body):
@@ -201,7 +214,7 @@ def print_program(prog, rng=None):
         pr.t(0, 0, pr.n)
         pb = pr.n
         if wrapper == 'switch':
-            sw = ('switch', [(False, False, body), (False, False, [('expr', ('call', T_CALL))])])
+            sw = ('switch', [(('lit',), False, body), (('lit',), False, [('expr', ('call', T_CALL))])])
             pr.block([sw])
         else:
             pr.block(body)
@@ -222,7 +235,7 @@ def coq_term(prog):
 
     def expr():
         t = nx()
-        return "(EIdent %d)" % nx() if t == 0 else "(ECall %d)" % nx() if t == 1 else "ELit"
+        return "(EIdent %d)" % nx() if t == 0 else "(ECall %d)" % nx() if t == 1 else "ELit" if t == 2 else "EThis"
 
     def opt(f):
         return "(Some %s)" % f() if nx() else "None"
@@ -246,11 +259,13 @@ def coq_term(prog):
         n = nx()
         items = []
         for _ in range(n):
-            cp, d, ft = nx(), nx(), nx()
+            cp = nx()
+            d = opt(expr)
+            ft = nx()
             items.append((cp, d, ft, stmts()))
         out = "CNil"
         for cp, d, ft, b in reversed(items):
-            out = "(CCons %d %s %s %s %s)" % (cp, "true" if d else "false", "true" if ft else "false", b, out)
+            out = "(CCons %d %s %s %s %s)" % (cp, d, "true" if ft else "false", b, out)
         return out
 
     def stmt():
@@ -340,7 +355,19 @@ class Gen:
             return ('call', self.r.randrange(1, 6))
         if x < 0.85:
             return ('id', self.r.randrange(1, 6))
-        return ('lit',)
+        if x < 0.96:
+            return ('lit',)
+        return ('this',)
+
+    def case_test(self):
+        x = self.r.random()
+        if x < 0.55:
+            return ('lit',)
+        if x < 0.75:
+            return ('id', self.r.randrange(1, 6))
+        if x < 0.92:
+            return ('call', self.r.randrange(1, 6))
+        return ('this',)
 
     def cond(self):
         x = self.r.random()
@@ -423,7 +450,7 @@ class Gen:
             cs = []
             for i in range(n):
                 body = self.stmts(sw, lo=0)
-                cs.append((i == dflt, r.random() < 0.15, body))
+                cs.append((None if i == dflt else self.case_test(), r.random() < 0.15, body))
             return ('switch', cs)
         if k == 'label':
             self.nlabel += 1
@@ -519,11 +546,12 @@ def enum_stmt(n, brk, cont, labels, loop_labels, mine=()):
                 yield ('try', a, None, b)
     # switch with one case / two cases (second is default)
     for a in enum_list(m, True, cont, labels, loop_labels):
-        yield ('switch', [(True, False, a)])
+        yield ('switch', [(None, False, a)])
+        yield ('switch', [(('call', 1), False, a)])
     for i in range(0, m + 1):
         for a in enum_list(i, True, cont, labels, loop_labels):
             for b in enum_list(m - i, True, cont, labels, loop_labels):
-                yield ('switch', [(False, False, a), (True, False, b)])
+                yield ('switch', [(('lit',), False, a), (None, False, b)])
 
 
 def enum_list(n, brk, cont, labels, loop_labels):
@@ -756,7 +784,7 @@ CLASSES = "ABCD"
 def model_body(prog):
     wrapper, body = prog
     if wrapper == 'switch':
-        return [('switch', [(False, False, body), (False, False, [('expr', ('call', T_CALL))])])]
+        return [('switch', [(('lit',), False, body), (('lit',), False, [('expr', ('call', T_CALL))])])]
     return body
 
 
@@ -876,6 +904,8 @@ def shrink_candidates_stmt(s, in_list=False):
         for i, (d, ft, b) in enumerate(cs):
             if ft:
                 yield ('switch', cs[:i] + [(d, False, b)] + cs[i + 1:])
+            if d is not None and d != ('lit',):
+                yield ('switch', cs[:i] + [(('lit',), ft, b)] + cs[i + 1:])
             for v in shrink_candidates_list(b):
                 yield ('switch', cs[:i] + [(d, ft, v)] + cs[i + 1:])
     elif k == 'try':
